@@ -85,7 +85,7 @@ def run(p, led, tier):
     led.rule("C01-R3", "a name is looked up / called only through a membership-tested subscript of the allow-list table; non-Name callees are refused", 3)
     led.rule("C01-R4", "every table value is a pure builtin, math.*, operator.*, a constant or a lambda over its parameters; nobody writes the tables", 40)
     led.rule("C01-R6", "metabolize cannot raise: every may-raise statement on hostile input is inside the blanket handler, whose own body is total", 1)
-    led.rule("C01-R7", "the length guard dominates every pathway call; only metabolize calls the pathway functions, only they call the walker", 4)
+    led.rule("C01-R7", "the length guard is established before every call that enters a pathway; only metabolize (or its routing helper) calls the pathway functions, only they call the walker", 2)
     led.rule("C01-R8", "the configured timeout has a control use; cost-unbounded table entries have a magnitude guard", 3)
     acc = set(accepted_classes(W))
     led.extra["walker"] = walker.qual
@@ -292,20 +292,27 @@ def run(p, led, tier):
 
     def parses(f):
         return any(isinstance(n, ast.Call) and dotted(n.func) in PARSERS for n in walk_no_nested(f.node))
-    pathway_fns = []
-    for n in walk_no_nested(met.node):
-        if isinstance(n, ast.Call):
-            for g in res.resolve_call(met, n):
-                if g.cls is mito and g is not met and g not in pathway_fns and any(parses(h) for h in res.reachable_from(g)):
-                    pathway_fns.append(g)
+    below_met = [g for g in res.reachable_from(met) if g.cls is mito and g is not met]
+    reach_ = {g.key: {h.key for h in res.reachable_from(g) if h.key != g.key} for g in below_met}
+    cands = [g for g in below_met if parses(g) or any(parses(h) for h in res.reachable_from(g))]
+    ckeys = {g.key for g in cands}
+    dispatchers = [g for g in cands if len(reach_[g.key] & ckeys) >= 2]            # reach several pathways: routing helpers
+    dkeys = {g.key for g in dispatchers}
+    shared = {g.key for g in cands if sum(1 for c in cands if c.key not in dkeys and g.key in reach_[c.key]) >= 2}    # parse helpers used by several pathways
+    pathway_fns = [g for g in cands if g.key not in dkeys and g.key not in shared
+                   and not any(g.key in reach_[c.key] for c in cands if c.key not in dkeys and c.key != g.key and c.key not in shared)]
     if len(pathway_fns) < 3:
-        raise AnchorError(f"only {len(pathway_fns)} pathway function(s) found below metabolize ({[g.name for g in pathway_fns]})")
-    for pf in pathway_fns:
+        raise AnchorError(f"only {len(pathway_fns)} pathway function(s) found below metabolize ({[g.name for g in pathway_fns]}; routing helpers {[g.name for g in dispatchers]})")
+    led.extra["pathway_functions"] = sorted(g.name for g in pathway_fns)
+    entry_ok = {met.key} | dkeys
+    for pf in pathway_fns + dispatchers:
         for caller, call in res.callers_of(pf):
             key = f"{caller.qual} ▸ {short(call, 50)}"
-            if caller is not met:
+            if caller.key not in entry_ok:
                 led.fail("C01-R7", key, where(caller, call), f"{pf.qual} is entered from outside metabolize, bypassing the length guard and the blanket handler")
                 continue
+            if caller is not met:
+                continue        # inside a routing helper: the guard is judged at the call that enters the helper from metabolize
             okg = guard_established(res, met, cfgm, cfgm.node_of(call), _length_fact, led)
             if okg:
                 led.ok("C01-R7", key, where(caller, call), f"dominated by {okg}")
@@ -465,6 +472,13 @@ def _may_raise(n, fi, callee_summary, res):
                 if any(callee_summary(t) for t in tgts if t.name not in ("__init__", "__post_init__")):
                     return True
                 continue
+            if isinstance(x.func, ast.Name):
+                lams = _table_lambdas(fi, x.func.id, res)
+                if lams is not None:
+                    # rows of a literal table of lambdas: total when every lambda body is
+                    if any(_may_raise(l.body, fi, callee_summary, res) for l in lams):
+                        return True
+                    continue
             if isinstance(x.func, ast.Name) and (x.func.id[:1].isupper() or (res.class_by_name(x.func.id, fi.module) is not None and _is_value_class(res.class_by_name(x.func.id, fi.module)))):
                 continue      # dataclass / enum / NamedTuple constructors of the module
             if is_self_attr(x.func) or (isinstance(x.func, ast.Attribute) and last in ("execute", "func")):
@@ -472,6 +486,36 @@ def _may_raise(n, fi, callee_summary, res):
             # unknown external call: conservatively may raise
             return True
     return False
+
+
+def _table_lambdas(fi, name, res):
+    """the Lambda nodes a local callable `name` can denote when it is bound by iterating / indexing a literal table of
+    the class or module (None when it is not such a name, or the table holds anything callable that is not a lambda)"""
+    defs = res._local_defs(fi, name)
+    if not defs or name in fi.params():
+        return None
+    out = []
+    for d in defs:
+        tab = d
+        if isinstance(tab, ast.Call) and isinstance(tab.func, ast.Attribute) and tab.func.attr in ("get", "items", "values"):
+            tab = tab.func.value
+        if isinstance(tab, ast.Subscript):
+            tab = tab.value
+        lit = None
+        if isinstance(tab, ast.Attribute) and isinstance(tab.value, ast.Name) and tab.value.id in ("self", "cls") and fi.cls is not None:
+            lit = fi.cls.assigns.get(tab.attr)
+        elif isinstance(tab, ast.Name):
+            lit = res._table_literal(fi, tab.id)
+        if lit is None:
+            return None
+        lams = [n for n in ast.walk(lit) if isinstance(n, ast.Lambda)]
+        others = [n for n in ast.walk(lit) if isinstance(n, (ast.Name, ast.Attribute)) and isinstance(getattr(n, "ctx", None), ast.Load)
+                  and not any(n is y or any(n is z for z in ast.walk(y)) for y in lams)]
+        callables = [n for n in others if isinstance(n, ast.Attribute) and isinstance(n.value, ast.Name) and n.value.id == "self"]
+        if not lams or callables:
+            return None
+        out.extend(lams)
+    return out
 
 
 def _is_value_class(ci):
